@@ -94,13 +94,37 @@ def collect(pid, results, group_of, fn_filter=None):
     return out, errors
 
 
+_KEEP_WORDS = {"as", "u8", "u16", "u32", "u64", "u128", "usize", "i8", "i16", "i32", "i64", "i128", "isize", "f32", "f64", "bool", "Limb", "Wide", "unwrap", "expect"}
+
+
+def shape_key(k):
+    """obligation key with the local identifiers of its snippet abstracted: `fn | kind | sci_exp + 1 - digits as i32` ->
+    `fn | kind | _ + 1 - _ as i32`.  Used only as a fall-back so that renaming a local does not invalidate an audited entry."""
+    import re
+    parts = k.split(" | ")
+    if len(parts) < 3:
+        return k
+    snip = " | ".join(parts[2:])
+    snip = re.sub(r"[A-Za-z_][A-Za-z0-9_]*", lambda m: m.group(0) if (m.group(0) in _KEEP_WORDS or m.group(0)[0].isupper()) else "_", snip)
+    return " | ".join(parts[:2] + [snip])
+
+
 def to_obs(pid, grouped, audit, side_envs, rule_of):
     """obligation dicts -> consts.Ob list per group; unproven + unaudited = failing"""
     per_group = {}
     stats = {"proven": 0, "audited": 0, "unproven": 0}
     audited_used = {}
+    # fall-back index: audited entries by shape (identifiers abstracted); usable only where the shape is unambiguous on both sides
+    shape_audit = {}
+    for wk, es in audit.items():
+        if not wk.endswith("*"):
+            shape_audit.setdefault(shape_key(wk), []).append((wk, es))
     for g, d in grouped.items():
         obs = []
+        failing_shapes = {}
+        for k, o in d.items():
+            if o["failed"] and norm_key(k) not in audit:
+                failing_shapes.setdefault(shape_key(norm_key(k)), set()).add(norm_key(k))
         for k, o in sorted(d.items()):
             site = "%s (%s)" % (o["fn"], o["loc"])
             rule = rule_of(o["kind"])
@@ -117,6 +141,12 @@ def to_obs(pid, grouped, audit, side_envs, rule_of):
                 for wk, es in audit.items():
                     if wk.endswith("*") and nk.startswith(wk[:-1]):
                         cands.extend(es)
+            if not cands:
+                # renamed locals: exactly one failing obligation and exactly one audited entry (itself unmatched in this group) share the shape
+                sk = shape_key(norm_key(k))
+                alts = [(wk, es) for wk, es in shape_audit.get(sk, []) if wk not in d and not any(norm_key(kk) == wk for kk in d)]
+                if len(alts) == 1 and len(failing_shapes.get(sk, [])) == 1:
+                    cands.extend(alts[0][1])
             ents = [e for e in cands if pid in e.get("props", [pid]) and (not e.get("only") or e["only"] in g)]
             if ents:
                 e = ents[0]
